@@ -96,6 +96,8 @@ pub fn component(rng: &mut Rng) -> String {
         let sp = rng.pick_str(&["", "", " ", "\u{00A0}"]);
         return format!("{m}{n}{sp}{{{}}}", if rng.chance(1, 2) { quantity(rng) } else { String::new() });
     }
+    // an empty or blank name in front of an alias
+    if rng.chance(1, 40) { s.push_str(rng.pick_str(&["|", " |", "\u{00A0}|"])); s.push_str(&word(rng)); s.push('{'); s.push_str(&quantity(rng)); s.push('}'); return s; }
     match rng.below(8) {
         0 => s.push_str(&word(rng)),                                  // single word
         1 => { s.push_str(&name(rng)); s.push_str("{}"); }
